@@ -7,7 +7,7 @@ The remaining arms (Down/Space, j/k, page keys, digits) are named by `selHardKey
 namespace Chewing.C01
 open Chewing Chewing.C04 Chewing.C05 Chewing.C06
 
-variable {D L : Type} {env : Env D L} {G : D → Prop}
+variable {D L : Type} {env : Env D L} {G : D → Prop} {w : Prop}
 
 /-- the keys whose arm of `Selecting::next` reads or changes the candidate list -/
 def selHardKey (ev : KeyEvent) : Bool :=
@@ -18,24 +18,24 @@ def selHardKey (ev : KeyEvent) : Bool :=
 
 /-- result of `Selecting::next`: invariant of the shared state, of the list if it stays open, and of the
     state it switches to -/
-def SelResOK (env : Env D L) (G : D → Prop) (r : Outcome (SelRes D L)) : Prop :=
-  OkAnd (fun x => ShInv env G x.shared ∧ (∀ b, x.trans = .spin b → SelInv env x.shared x.sel) ∧
-    ∀ st, x.trans = .toState st → StInv env x.shared st) r
+def SelResOK (env : Env D L) (G : D → Prop) (w : Prop) (r : Outcome (SelRes D L)) : Prop :=
+  OkAnd (fun x => ShInv env G w x.shared ∧ (∀ b, x.trans = .spin b → SelInv env w x.shared x.sel) ∧
+    ∀ st, x.trans = .toState st → StInv env w x.shared st) r
 
-theorem selResOK_ite {c : Prop} [Decidable c] {a b : Outcome (SelRes D L)} (h1 : c → SelResOK env G a)
-    (h2 : ¬ c → SelResOK env G b) : SelResOK env G (if c then a else b) := by
+theorem selResOK_ite {c : Prop} [Decidable c] {a b : Outcome (SelRes D L)} (h1 : c → SelResOK env G w a)
+    (h2 : ¬ c → SelResOK env G w b) : SelResOK env G w (if c then a else b) := by
   split
   · next h => exact h1 h
   · next h => exact h2 h
 
-theorem cancel_inv {sh : Shared D L} (h : ShInv env G sh) : ShInv env G (Shared.cancelSelecting sh) :=
+theorem cancel_inv {sh : Shared D L} (h : ShInv env G w sh) : ShInv env G w (Shared.cancelSelecting sh) :=
   h.setComSame (ced_popCursor h.ced) (by rw [popCursor_inner])
 
-theorem selectingNext_easy {sh : Shared D L} {s : Selecting} (h : ShInv env G sh) (hs : SelInv env sh s)
-    (ev : KeyEvent) (hkey : selHardKey ev = false) : SelResOK env G (selectingNext env s sh ev) := by
-  have leafSpin : ∀ b, SelResOK env G (.ok ⟨sh, s, .spin b⟩) :=
+theorem selectingNext_easy {sh : Shared D L} {s : Selecting} (h : ShInv env G w sh) (hs : SelInv env w sh s)
+    (ev : KeyEvent) (hkey : selHardKey ev = false) : SelResOK env G w (selectingNext env s sh ev) := by
+  have leafSpin : ∀ b, SelResOK env G w (.ok ⟨sh, s, .spin b⟩) :=
     fun b => .ok ⟨h, fun _ _ => hs, fun st hst => (by cases hst)⟩
-  have leafTo : ∀ sh' : Shared D L, ShInv env G sh' → SelResOK env G (.ok ⟨sh', s, .toState .entering⟩) :=
+  have leafTo : ∀ sh' : Shared D L, ShInv env G w sh' → SelResOK env G w (.ok ⟨sh', s, .toState .entering⟩) :=
     fun sh' h' => .ok ⟨h', fun b hb => (by cases hb), fun st hst => (by cases hst; trivial)⟩
   unfold selectingNext
   refine selResOK_ite (fun _ => leafSpin _) fun c1 => ?_
@@ -69,8 +69,8 @@ theorem selectingNext_easy {sh : Shared D L} {s : Selecting} (h : ShInv env G sh
 /-- `process_keyevent` under an open candidate list, given that the state's `next` is fine -/
 theorem processKey_selecting_of (hE : EnvOK env G) {e : Editor D L} {s : Selecting}
     (hst : e.state = .selecting s) (ev : KeyEvent)
-    (hsel : SelResOK env G (selectingNext env s (preamble e.shared) ev)) :
-    OkAnd (fun x => EditorInv env G x.1) (e.processKey env ev) := by
+    (hsel : SelResOK env G w (selectingNext env s (preamble e.shared) ev)) :
+    OkAnd (fun x => EditorInv env G w x.1) (e.processKey env ev) := by
   rw [processKey_eq]
   obtain ⟨x, hq, h1, h2, h3⟩ := hsel
   unfold dispatch
@@ -88,8 +88,8 @@ theorem processKey_selecting_of (hE : EnvOK env G) {e : Editor D L} {s : Selecti
     exact tail_ok hE (sh := { x.shared with last := b }) (st := .selecting x.sel) (h1.congr rfl rfl rfl rfl rfl rfl)
       (StInv.same (st := .selecting x.sel) (h2 b ht) rfl rfl)
 
-theorem selInv_preamble {e : Editor D L} (hi : EditorInv env G e) {s : Selecting} (hst : e.state = .selecting s) :
-    SelInv env (preamble e.shared) s := by
+theorem selInv_preamble {e : Editor D L} (hi : EditorInv env G w e) {s : Selecting} (hst : e.state = .selecting s) :
+    SelInv env w (preamble e.shared) s := by
   have := hi.st
   rw [hst] at this
   exact StInv.same (st := .selecting s) this rfl rfl
